@@ -91,7 +91,7 @@ class ModbusBinaryFramer(ModbusFramer):
         it or determined that it contains an error. It also has to reset the
         current frame header handle
         """
-        self._buffer = self._buffer[self._header['len'] + 2:]
+        self._buffer = self._buffer[self._header['len'] + 1:]
         self._header = {'crc':0x0000, 'len':0, 'uid':0x00}
 
     def isFrameReady(self):
